@@ -329,6 +329,11 @@ void ezc3d::c3d::frame(const ezc3d::DataNS::Frame &f, size_t idx)
                                      "the number of analogs sent in the frame");
     }
 
+    // The names are bound to the points by their position when the file is read back, so the order matters
+    for (size_t i=0; i<labels.size() && i<f.points().nbPoints(); ++i)
+        if (f.points().point(i).name().compare(labels[i]))
+            throw std::invalid_argument("The points in the frame must be in the same order as in the POINT:LABELS parameter");
+
     // Replace the jth frame
     _data->frame(f, idx);
     updateParameters();
